@@ -208,8 +208,14 @@ func H_C04_PingAck() {
 	seq := vU32()
 	useSource := vBool()
 	p := ping{SeqNo: seq, Node: []string{vSelf, ""}[vPick(2)]}
+	wantTo := "10.0.0.2:7946"
 	if useSource {
 		p.SourceAddr, p.SourcePort, p.SourceNode = []byte{10, 0, 0, 2}, 7946, vPeerA
+		if vPick(2) == 1 {
+			// an IPv6 prober: the reply address needs brackets
+			p.SourceAddr = []byte{0xfd, 0, 0, 0, 0, 0, 0, 0, 0, 0, 0, 0, 0, 0, 0, 7}
+			wantTo = "[fd00::7]:7946"
+		}
 	}
 	buf, err := encode(pingMsg, &p, false)
 	vAssert(err == nil, "c04.ping.encode")
@@ -221,7 +227,7 @@ func H_C04_PingAck() {
 		mt, ok := vDecodePkt(f.tr.packets[0], &a)
 		vAssert(ok && mt == ackRespMsg && a.SeqNo == seq, "c04.ping.ack-carries-seq")
 		if useSource {
-			vAssert(f.tr.to[0].Addr == "10.0.0.2:7946" && f.tr.to[0].Name == vPeerA, "c04.ping.ack-to-source")
+			vAssert(f.tr.to[0].Addr == wantTo && f.tr.to[0].Name == vPeerA, "c04.ping.ack-to-source")
 		} else {
 			vAssert(f.tr.to[0].Addr == "10.0.0.9:7000", "c04.ping.ack-to-sender")
 		}
